@@ -98,6 +98,20 @@ SEEDS = [
     "{ t { i { ... on T { g { ... on User { name } } } } } }",
     "{ query { query { a } } }",
     "{ f(y: {s: \"a\"}) { id } f2: f { id } }",
+    # several errors of different rules in one document, the subscription rule's error last / in the middle
+    "query Q { unknown } subscription S { a t { id } }",
+    "subscription S { a b: a __typename } query Q { zz }",
+    "subscription { ...F a2: a } fragment F on Subscription { a t { zz } }",
+    "query Q($u: Int) { zz } subscription S($v: Int) { a t { id } __typename }",
+    # type-system definitions inside an executable document (rules that merge document definitions)
+    "directive @skip on FIELD directive @cached(ttl: Int!) on FIELD { a }",
+    "{ a @skip  x: a @cached  t { id @req } }",
+    "directive @req(other: Int!) on FIELD { t { id @req(must: 1) a @req(other: 2) } }",
+    "type T { other: Int } { t { other id } }",
+    "input In { zz: Int! } { b(y: {zz: 1}) t(in: {s: \"x\"}) { id } }",
+    "enum E { Z } { t(e: Z) { id } u: t(e: A) { id } }",
+    "scalar S2 extend type Query { extra: S2 } { extra }",
+    "directive @onField(n: Int!) on FIELD { a @onField }",
 ]
 
 NAME_POOL = ["a", "b", "c", "id", "name", "f", "g", "t", "u", "i", "T", "U", "I", "E", "S", "In", "User", "Friend", "Node",
@@ -309,7 +323,8 @@ def check_document(ck, impl, text, doc, rng, light=False):
             ck.violation(key("subset"), f"a subset/ordering of rules reports a different multiset than its rules alone on {text!r}",
                          dict(rep, relation="subset = union of alone", rules=[r.__name__ for r in sub]))
     # (b) max_errors
-    for n in ([1, None] if light else [0, 1, 2, 5, None]):
+    sweep = sorted({0, 1, 2, 5, *range(0, min(len(full), 14) + 1)}) if not light else sorted({1, max(len(full) - 1, 0)})
+    for n in [*sweep, None]:
         lim = observe(impl.validate(doc, max_errors=n), paths)
         eff = 100 if n is None else n
         if len(full) <= eff:
@@ -610,6 +625,29 @@ def run(tier):
             schema_snap = print_schema(schema)
     if print_schema(schema) != schema_snap:
         ck.violation("schema-mutated", "validate() modified the schema", {"relation": "schema unchanged"})
+    # history independence: after everything above was validated against `schema`, the answer for a document must
+    # still be the one a freshly built schema object gives (no state carried in the schema / rule modules)
+    hist = [(t, d) for (t, d) in parsed_for_model if any(k in t for k in ("directive @", "type ", "input ", "enum ", "scalar "))]
+    hist += rng.sample(parsed_for_model, min(len(parsed_for_model), 25 if quick else 120))
+    for order in range(2):
+        rng.shuffle(hist)
+        for text, doc in hist:
+            try:
+                used = msgs(observe(impl.validate(doc), node_paths(doc)))
+                fresh_impl = Impl(build_schema(SCHEMA_SDL))
+                fresh = msgs(observe(fresh_impl.validate(doc), node_paths(doc)))
+            except Exception:  # noqa: BLE001
+                ck.count("history_validate_raised")
+                continue
+            ck.evaluations += 1
+            if used != fresh:
+                ck.violation(f"history:{text!r}",
+                             f"validate() of {text!r} on a schema object that has served earlier validations differs "
+                             f"from the answer on a freshly built schema: only used {[x for x in used if x not in fresh][:3]}, "
+                             f"only fresh {[x for x in fresh if x not in used][:3]}",
+                             {"relation": "validate is independent of earlier validations", "document": text,
+                              "schema": "C12 fixed schema (harness/c12.py SCHEMA_SDL)"})
+    ck.count("history_checks", 2 * len(hist))
     # type-directed documents with fragments over generated schemas
     from . import c14
     nschemas = 10 if quick else 150
